@@ -22,7 +22,7 @@ R = {
  "C14": ("caught", "quick seed 1: the coverage theorem over the regenerated site list no longer holds (proof obligations broken, theorems=0) and 149 monitor failures (processes diverge on balances/fault counters) -> VIOLATION impl-violation", ""),
  "C15": ("caught", "quick seed 1: corr_mismatch=6 monitor_fail=1 (observed panic) -> VIOLATION impl-violation", ""),
  "C16": ("caught", "quick seed 1: corr_mismatch=240 monitor_fail=720 -> VIOLATION impl-violation", ""),
- "C17": ("caught (as a harness abort)", "quick seed 1: the real BeginBlock panics ('negative coin amount') inside the harness's own FinalizeBlock, the harness stops and the check reports VIOLATION ... no-failing-input-found naming the correspondence (exit 1). The failing input is in fact that block; reporting it as impl-violation would be better", ""),
+ XX
  "C18": ("caught", "quick seed 1: corr_mismatch=21, no monitor failure; the violation search (seed 101) found a monitor failure (admitted below the minimum gas price) -> VIOLATION impl-violation", ""),
  "C19": ("caught", "quick seed 1: corr_mismatch=3 monitor_fail=6 -> VIOLATION impl-violation", ""),
  "C20": ("caught after strengthening", "first run: 344 cases, exit 0 (configurations with colliding digit strings never followed each other in one process); after the call-sequence families of harness/c20/seq.go: corr_mismatch=49 monitor_fail=48 -> VIOLATION impl-violation", "harness/c20/seq.go"),
